@@ -83,6 +83,7 @@ func (f *file) register(c *Counter) {
 		}
 		if f.counters.CompareAndSwap(head, c) {
 			debugPrintf("registered %s %p\n", c.Name(), f.counters.Load())
+			c.registered.Store(true)
 			return
 		}
 		debugPrintf("register %s cas2 failed %p %p\n", c.Name(), f.counters.Load(), head)
